@@ -110,7 +110,7 @@ def gen_C01(tier, seed):
                             maxp=3, maxplen=2, maxhay=4, stride=3)
     reqs += _find_like(g, 250 if q else 2500, ["lf", "ll"], ["find", "iter"], cf)
     certs = _fixed_certs(["lf", "ll"], CORPUS_LISTS) + _certs(g, 40 if q else 400, ["lf", "ll"])
-    return {"reqs": reqs, "certs": certs, "first": True, "gen": g, "modes": "0"}
+    return {"reqs": reqs, "certs": certs, "first": True, "gen": g, "modes": "0", "l1c": True}
 
 
 def gen_C02(tier, seed):
@@ -126,7 +126,7 @@ def gen_C02(tier, seed):
                         maxp=2, maxplen=2, maxhay=3 if q else 5)
     reqs += _find_like(g, 250 if q else 2500, ["std"], ["find", "iter"], cf)
     certs = _fixed_certs(["std"], CORPUS_LISTS) + _certs(g, 40 if q else 400, ["std"])
-    return {"reqs": reqs, "certs": certs, "first": True, "gen": g, "modes": "0"}
+    return {"reqs": reqs, "certs": certs, "first": True, "gen": g, "modes": "0", "l1c": True}
 
 
 def gen_C03(tier, seed):
@@ -143,7 +143,7 @@ def gen_C03(tier, seed):
                         maxp=2, maxplen=2, maxhay=3 if q else 4)
     reqs += _find_like(g, 250 if q else 2500, ["std"], ["ovl", "ovliter"], cf)
     certs = _fixed_certs(["std"], CORPUS_LISTS) + _certs(g, 40 if q else 400, ["std"])
-    return {"reqs": reqs, "certs": certs, "first": False, "gen": g, "modes": "0"}
+    return {"reqs": reqs, "certs": certs, "first": False, "gen": g, "modes": "0", "l1c": True}
 
 
 def gen_C04(tier, seed):
@@ -751,7 +751,7 @@ def gen_C19(tier, seed):
     certs += _certs(g, 40 if q else 500, ["std", "lf", "ll"], fold=0.25,
                     pat_kinds=["tiny", "tiny3", "nest", "akb", "suffix_chain", "casey", "fanout_small"], cfgl=allc)
     return {"reqs": reqs, "certs": certs, "first": "bykind", "gen": g, "needs_consts": ["cost"], "needs_cpu": True,
-            "failsmode": True, "modes": "0"}
+            "failsmode": True, "modes": "0", "l1c": True}
 
 
 TOP_APIS = ["is_match", "find", "find_overlapping", "find_iter", "find_overlapping_iter", "replace_all",
